@@ -18,7 +18,7 @@ META = dict(
               "real Engine with a shadow-copy oracle at the tag and hardware boundary",
     text="From every seed history (fresh engine; a first run that was stopped or restarted while paused, with safe or driven "
          "outputs) every sequence of the given depth over {Start, Pause, Unpause, Stop, Restart, inject Set1: <fresh value>, "
-         "inject Valve: <toggled>, tick, 3 ticks} is executed on methods with a plain wait, a timed Pause, a method Pause "
+         "inject Valve: <toggled>, inject <failing line>, tick, 3 ticks} is executed on methods with a plain wait, a timed Pause, a method Pause "
          "after an output command and a failing line (error pause).  Whenever the paused flag goes True -> False while the "
          "run continues, every output tag and the hardware memory after that tick's write must equal the values at the end "
          "of the tick before the paused period began.",
@@ -31,21 +31,22 @@ META = dict(
 OUTS = ("Out1", "Out2", "Free")
 WRITERS = {"SetOut": "Out1", "Set1": "Out1", "Valve": "Out2"}
 
-# abstract events; ("set1",) and ("valve",) are made concrete per position (fresh value / toggled value)
+# abstract events; ("set1",) and ("valve",) are made concrete per position (fresh value / toggled value); ("bogus",) injects
+# a line that fails when interpreted (error pause about three ticks later)
 ALPHABET = [("user", "Start"), ("user", "Pause"), ("user", "Unpause"), ("user", "Stop"), ("user", "Restart"),
-            ("set1",), ("valve",), ("tick", 1), ("tick", 3)]
+            ("set1",), ("valve",), ("bogus",), ("tick", 1), ("tick", 3)]
 METHODS = [
     "Wait: 100s",
     "Set1: 5\nPause: 0.2s\nWait: 100s",
     "Mark: a\nBogus",
     "Set1: 5\nPause\nWait: 100s",
-    "Wait: 0.3s\nBogus",
 ]
 # seed histories (abstract events): what happened before the enumerated suffix
 SEEDS = [
     [],
-    # run 1 paused with the outputs still at their initial values, stopped while paused
-    [("user", "Start"), ("tick", 1), ("user", "Pause"), ("tick", 1), ("user", "Stop"), ("tick", 3)],
+    # run 1 drove both outputs, was paused and unpaused, then drove both outputs to other values
+    [("user", "Start"), ("set1",), ("valve",), ("tick", 3), ("tick", 2), ("user", "Pause"), ("tick", 1), ("user", "Unpause"),
+     ("tick", 1), ("set1",), ("valve",), ("tick", 3)],
     # run 1 drove both outputs, was paused and then restarted while paused (run 2 is starting)
     [("user", "Start"), ("set1",), ("valve",), ("tick", 3), ("tick", 2), ("user", "Pause"), ("tick", 1), ("user", "Restart"),
      ("tick", 3)],
@@ -65,6 +66,8 @@ def concretize(events):
         ev = tuple(ev)
         if ev[0] == "set1":
             out.append(("inject", f"Set1: {10 + k}"))
+        elif ev[0] == "bogus":
+            out.append(("inject", "Bogus"))            # a failing line: the engine pauses the run with an error
         elif ev[0] == "valve":
             out.append(("inject", "Valve: Open" if nv % 2 == 0 else "Valve: Closed"))
             nv += 1
@@ -299,17 +302,21 @@ def explore(item):
                 kinds=sorted(kinds), states=sorted(map(repr, states)), sample=sample)
 
 
+DEEPER = [(0, 0), (3, 0)]          # (method, seed) explored one level deeper in the thorough tier
+
+
 def run(ctx):
-    depth = 4 if ctx.quick else 6
-    plen = 2
+    depth = 4 if ctx.quick else 5
     n = len(ALPHABET)
     items = []
-    for d in [depth]:
-        for mi in range(len(METHODS)):
-            for wi in range(len(SEEDS)):
-                for a in range(n):
-                    for b in range(n):
-                        items.append((mi, wi, (a, b), d))
+    depths = {}
+    for mi in range(len(METHODS)):
+        for wi in range(len(SEEDS)):
+            d = depth + 1 if (not ctx.quick and (mi, wi) in DEEPER) else depth
+            depths[f"{mi},{wi}"] = d
+            for a in range(n):
+                for b in range(n):
+                    items.append((mi, wi, (a, b), d))
     ctx.prove_deterministic(lambda it: explore((it[0], it[1], it[2], 4)), [items[0], items[n * n * 6 + 10], items[n * n * 12 + 75]], k=3)
     results = ctx.pmap(explore, items, chunk=4)
     tot = dict(execs=0, pruned=0, transitions=0, checked=0, nontrivial=0, nontrivial_execs=0, ambiguous=0, double=0, two_runs=0)
@@ -343,7 +350,7 @@ def run(ctx):
              "= Unpause executions compared with the shadow copy; non-trivial = executions in which an Unpause executed while "
              "the pre-pause outputs differed from the safe values; states = distinct (system state, run flags, paused period "
              "open, outputs driven, second run, earlier pause in history) observed after a tick",
-        samples=samples, exhaustive=True, depth=depth, methods=METHODS, seeds=[[list(e) for e in s] for s in SEEDS],
+        samples=samples, exhaustive=True, depth=depth, depth_per_method_and_seed=depths, methods=METHODS, seeds=[[list(e) for e in s] for s in SEEDS],
         alphabet=[list(a) for a in ALPHABET], pruned_after_rejected_request=tot["pruned"],
         executions_reaching_second_run=tot["two_runs"], unpause_kinds=sorted(kinds),
         unpause_checks_on_driven_outputs=tot["nontrivial"], register_checks_skipped_same_tick_command=tot["ambiguous"],
